@@ -103,6 +103,51 @@ pub fn gen_random(seed: u64, idx: u64) -> Plan {
             c.kind = ConnKind::H2;
         } else {
             c.steps.push(Step::AwaitResponses { count: nreq, max_ms: 60_000 });
+            if r.chance(1, 6) {
+                // One more request whose body the client never completes: it
+                // announces more than it sends, then goes away (or stops
+                // sending and keeps reading).  No handler may be given the
+                // fragment as if it were the body.
+                let e = loop {
+                    let e = gen_any(&mut r, nonce, 0, 0);
+                    if e.body.as_ref().map(|b| b.len() >= 2).unwrap_or(false) {
+                        break e;
+                    }
+                };
+                let mut e = e;
+                if versioned {
+                    e.headers.push(("x-api-version".into(), b"1.0.0".to_vec()));
+                }
+                // declare the full length, send less
+                e.framing = BodyFraming::Length;
+                let bytes = e.h1_bytes();
+                let head_len = bytes.windows(4).position(|w| w == b"\r\n\r\n").unwrap() + 4;
+                // At least one byte of the payload proper stays unsent.  (A
+                // multipart body is complete for its parser once the closing
+                // delimiter has arrived, so there the cut falls before it.)
+                let keep_back = if e.op == "echo_mp" { 48 } else { 1 };
+                let max_cut = bytes.len().saturating_sub(keep_back).max(head_len);
+                let cut = r.usize_in(head_len, max_cut);
+                let streaming = e.op == "echo_stream" || e.op == "echo_mp";
+                c.steps.push(Step::Send { data: Blob(bytes[..cut].to_vec()), completes: None });
+                c.steps.push(Step::Sleep { ms: r.range(0, 50) });
+                match r.below(3) {
+                    0 => c.steps.push(Step::Close),
+                    1 => c.steps.push(Step::Reset),
+                    _ => {
+                        c.steps.push(Step::HalfClose);
+                        c.steps.push(Step::AwaitEof { max_ms: 40_000 });
+                    }
+                }
+                c.reqs.push(ReqPlan {
+                    nonce,
+                    head_method: false,
+                    expect: Expect::Refuse {
+                        why: format!("{}incomplete body: {} of {} bytes sent ({})", if streaming { "streaming " } else { "" }, cut, bytes.len(), e.op),
+                    },
+                });
+                nonce += 1;
+            }
         }
         conns.push(c);
     }
@@ -162,6 +207,7 @@ impl Scenario for C09 {
             "versioned_dispatch_checked",
             "multipart_checked",
             "overtaking_completions",
+            "incomplete_body_checked",
         ]
     }
 
@@ -381,6 +427,21 @@ pub fn check_c09(
         let peer = peer_of(cp);
         let mut closed_after_error = false;
         for (k, rq) in cp.reqs.iter().enumerate() {
+            if let Expect::Refuse { why } = &rq.expect {
+                probes.push("incomplete_body_checked");
+                let entered = hist.get(&rq.nonce).map(|h| !h.enter.is_empty()).unwrap_or(false);
+                let ok2xx = obs.by_req[k].as_ref().map(|r| r.resp.status < 300).unwrap_or(false);
+                if (entered && !why.starts_with("streaming")) || ok2xx {
+                    v.push(Violation {
+                        rule: "c09.incomplete_body_delivered".into(),
+                        detail: format!(
+                            "nonce {}: the client never finished this request body ({why}) but a handler was given it (entered={entered}, answered_2xx={ok2xx})",
+                            rq.nonce
+                        ),
+                    });
+                }
+                continue;
+            }
             match &obs.by_req[k] {
                 None => {
                     if h2 {
